@@ -619,7 +619,10 @@ func (s unicodeString) index(substr String, start int) int {
 	} else {
 		ss = a.utf16()
 	}
-	idx := utf16Index(s[min(1+start, len(s)):], ss)
+	if start > len(s)-1 {
+		return -1
+	}
+	idx := utf16Index(s[1+start:], ss)
 	if idx != -1 {
 		return idx + start
 	}
